@@ -767,6 +767,10 @@ class Analysis:
             return ("phi", v[1], var)
         return ("opq", var, v[1], v[2])
 
+    def phi_inputs(self, b, var):
+        """terms flowing into the phi of SSA variable `var` at block b"""
+        return [self.var_term(self.ver_out[p], var) for p, _ in self.cfg.pred[b] if p in self.ver_out]
+
     def emit(self, ev):
         self.events.append(ev)
         self.ev_by_block.setdefault(ev["b"], []).append(ev)
@@ -837,6 +841,8 @@ class Analysis:
         return self.load_region(name, addr, cur)
 
     def load_region(self, name, addr, cur):
+        if addr is not None and addr[0] == "constref":
+            return ("const", addr[1], addr[2])      # *&<literal>
         v = self.ver(cur, name)
         if v == ("e",) and name.startswith("L") and name[1:].isdigit() and 1 <= int(name[1:]) <= self.nargs:
             return ("arg", int(name[1:]))
@@ -856,6 +862,8 @@ class Analysis:
                 return ("const", op["ty"]["s"], int(op["int"]))
             if "closure" in op:
                 return ("closureref", op["closure"])
+            if "ref_int" in op:
+                return ("constref", op["ref_ty"]["s"], int(op["ref_int"]))
             return ("constx", op["ty"]["s"], op["s"])
         if k in ("copy", "move"):
             return self.place_term(op["place"], cur)
@@ -1010,10 +1018,28 @@ class Analysis:
                 res = mk_call(key, args, targs, self, cur)
             else:
                 res = ("site", b, key)
+        swap_store = None
+        if key in E.MEM_REPLACE and t["args"] and t["args"][0]["k"] in ("copy", "move"):
+            # replace(p, v) / take(p): the result is the old value of *p, then *p is overwritten
+            tp = t["args"][0]["place"]
+            dplace = {"local": tp["local"], "proj": list(tp["proj"]) + [{"k": "deref"}]}
+            try:
+                old = self.place_term(dplace, cur)
+                dmode, dname, _ = self.walk_place(dplace)
+                daddr = self.place_term(dplace, cur, want_addr=True)
+            except Exception:
+                old = None
+            if old is not None and dmode == "mem":
+                res = old
+                newv = raw_args[1] if len(raw_args) > 1 else ("default",)
+                swap_store = {"k": "store", "b": b, "i": i, "region": dname, "addr": daddr, "val": newv,
+                              "span": blk["tspan"], "vers": dict(cur), "via": key}
         ev = {"k": "call", "b": b, "i": i, "key": key, "fn": fn, "args": raw_args, "pure": pure,
               "res": res, "span": blk["tspan"], "func_term": fterm, "vers": dict(cur),
               "unsafe": bool(fn and fn.get("unsafe")), "diverges": t["target"] is None}
         self.emit(ev)
+        if swap_store is not None:
+            self.emit(swap_store)
         mode, name, vp = self.walk_place(t["dest"])
         before = dict(cur) if key == "alloc::vec::Vec::set_len" else None
         if mode == "val":
@@ -1067,6 +1093,14 @@ def mk_bin(op, a, b):
         op, a, b = "Lt", b, a
     elif op == "Ge":
         op, a, b = "Le", b, a
+    if op in ("Div", "Rem") and b[0] == "const" and isinstance(b[2], int) and str(b[1]).startswith("u") \
+            and b[2] >= 2 and b[2] & (b[2] - 1) == 0 and a[0] != "const":
+        # unsigned x / 2^k == x >> k and x % 2^k == x & (2^k - 1): one canonical form
+        k = b[2].bit_length() - 1
+        if op == "Div":
+            op, b = "Shr", ("const", "i32", k)
+        else:
+            op, b = "BitAnd", ("const", b[1], b[2] - 1)
     if op in COMM and repr(b) < repr(a):
         a, b = b, a
     if a[0] == "const" and b[0] == "const" and isinstance(a[2], int) and isinstance(b[2], int):
